@@ -9,10 +9,10 @@
    (2) hand models, built on the generated functions, of the object-level code:
        inverse_mod, scale, x(), y(), to_affine, __eq__, __neg__, double(), __add__,
        _maybe_precompute, _mul_precompute, __mul__, mul_add, Public_key.__init__
-       validation, ECDH._get_shared_secret.
+       validation, ECDH._get_shared_secret (incl. its key / curve-consistency guards).
    No proofs here. *)
 From Coq Require Import List Bool ZArith Znumtheory.
-From Bec2 Require Import Base.Result Base.Modp Gen.EcFormulas.
+From Bec2 Require Import Base.Result Base.Modp Gen.EcFormulas Gen.Curves.
 Import ListNotations.
 Open Scope Z_scope.
 
@@ -349,4 +349,47 @@ Definition pubkey_of (p a n : Z) (G : jac) (d : Z) : result (option aff) :=
   match r with
   | None => Ok None
   | Some J => let* (x, y, _) := pj_scale p J in Ok (Some (x, y))
+  end.
+
+(* ------------------------------------------------------------------------- *)
+(* ECDH._get_shared_secret with its guards.  The ECDH object has a curve (or None), a
+   private key (its curve, the secret multiplier) and the received public key (its curve,
+   the point); curves are curves.Curve objects, compared with Curve.__eq__:
+   same CurveFp (p equal, a and b equal mod p) and equal generators. *)
+
+Definition curvefp_eqb (c1 c2 : curve) : bool :=
+  (c_p c1 =? c_p c2) && (c_a c1 mod c_p c1 =? c_a c2 mod c_p c1) && (c_b c1 mod c_p c1 =? c_b c2 mod c_p c1).
+
+Definition curve_eqb (c1 c2 : curve) : bool :=
+  curvefp_eqb c1 c2 &&
+  (* PointJacobi.__eq__ of the generators: same CurveFp, then the cross-multiplied test *)
+  pj_eqb (c_p c1) (c_Gx c1, c_Gy c1, 1) (c_Gx c2, c_Gy c2, 1).
+
+Inductive ecdh_outcome : Set :=
+| Secret (s : Z)
+| NoKeyError
+| InvalidCurveError
+| InvalidSharedSecretError.
+
+Definition ecdh_get_shared (cur : option curve) (priv : option (curve * Z)) (pub : option (curve * jac))
+  : result ecdh_outcome :=
+  match priv with
+  | None => Ok NoKeyError
+  | Some (cpriv, d) =>
+      match pub with
+      | None => Ok NoKeyError
+      | Some (cpub, Q) =>
+          (* private_key.curve == self.curve == remote_public_key.curve *)
+          let same := match cur with
+                      | None => false
+                      | Some c => curve_eqb cpriv c && curve_eqb c cpub
+                      end in
+          if negb same then Ok InvalidCurveError
+          else
+            let* r := ecdh_shared (c_p cpub) (c_a cpub) Q d in
+            match r with
+            | None => Ok InvalidSharedSecretError
+            | Some s => Ok (Secret s)
+            end
+      end
   end.
